@@ -49,6 +49,13 @@ pub struct InsertNodesQuery {
 
 impl QueryMut for InsertNodesQuery {
     fn process<Store: StorageData>(&self, db: &mut DbImpl<Store>) -> Result<QueryResult, DbError> {
+        if self.aliases.iter().any(|alias| alias.is_empty()) {
+            return Err(DbError::query(
+                DbErrorType::NotAllowed,
+                "Empty alias is not allowed",
+            ));
+        }
+
         let mut result = QueryResult::default();
         let mut ids = vec![];
         let count = std::cmp::max(self.count, self.aliases.len() as u64);
